@@ -1,5 +1,84 @@
-chk("C19", "model_checking",
+MC = "model_checking"
+S = "explicit-state BFS over the real library in lock-step with a reference model"
+I = "bounded-exhaustive input enumeration on the real code vs a reference model"
+chk("C01", MC, I + " (snapshot deviations)",
+    "Every snapshot that differs from one of four base snapshots in at most k of the 26 fields (k=1 quick, 2 thorough; field alphabets: absent, sentinels, ordinary, UTF-8, long, clamped, sub-second, slot lists with entries in slots 0 and 7, 12 slots, labels of 255/256 bytes, one-marker / unsorted grids, odd waveform sizes, extreme numbers) is written by create_track and by update over every stored base on all 18 schemas. Per accepted write: deviated fields read back as the normalisation table allows, writing the read-back again is a fixed point, getters equal snapshot fields, a bystander track is unchanged; a rejected write must be a std::exception that leaves the database unchanged and may not hit snapshots made of ordinary values.",
+    "Trusts the normalisation table in src/model/trackfields.cpp (shared with C06). Waveforms, and bpm on 1.x when a grid is stored, are derived data held only to the fixed-point and no-later-exception requirements. Snapshots more than k fields away from a base are not covered.",
+    "DESIGN.md section 5, C01")
+chk("C02", MC, I + " + independent codec (refcodec)",
+    "For every value of the C03 set inside the encodable domain, for each of the 11 codecs: refcodec.decode(unframe(lib.encode(v))) equals the Engine layout of v and the frame is exactly 4-byte BE length + one complete zlib stream; lib.decode(frame(refcodec.encode(v))) equals v, with the foreign blob compressed at zlib level -1/0/1/9 and, for 1.x beat data, with Engine's nine trailing zero bytes.",
+    "Trusted base: src/refcodec (independent implementation written from the documented layout, zlib one-shot API). No real Engine blob exists in testdata, so agreement with hardware is as good as the documented layout.",
+    "DESIGN.md section 5, C02")
+chk("C03", MC, I,
+    "For each of the 11 codecs every value within k field deviations of a base value (quick: k=2 small size alphabets; thorough: k=2 with grids up to 40000 markers / waveforms up to 100000 points, then k=3) is encoded and decoded by the library: values inside the encodable domain must be accepted and decode bit-for-bit to themselves; values outside may be refused but, if accepted, must still round-trip; under ASan + UBSan + libstdc++ assertions with an inflate-call horizon.",
+    "Alphabets are finite (doubles by bit-pattern class, label lengths 0..300, 0..12 entries, chunk-exact payload sizes). 0 as 'no value' for 1.x rate / count / loudness and the opacity-less 1.x overview layout are treated as the layout's documented sentinels.",
+    "DESIGN.md section 5, C03")
+chk("C04", MC, I + " + setters on planted foreign blobs",
+    "Foreign payloads from refcodec with features the library never writes (k<=2/3 deviations: counts 0..12, arbitrary flag / unknown bytes, two different grids, trailing data, chunk-exact sizes) and every single-byte replacement (all 255 values, every position) of small valid payloads: whenever a 2.x decoder accepts, unframe(to_blob(from_blob(x))) must equal the original payload byte for byte (main-cue-adjusted byte may become 1); well-formed foreign blobs must be accepted.",
+    "Only the uncompressed payload is compared. Multi-byte corruptions and payloads above ~130 bytes are covered by the structured set only. The setter half (tracks holding foreign blobs, one field changed through the public API) is covered for hot cues / loops / main cue / loudness / key / sample fields in c04 phase 3 when present in the evidence.",
+    "DESIGN.md section 5, C04")
+chk("C05", MC, I + " + exhaustive zlib answer injection",
+    "12 entry points (zlib_uncompress + 11 decoders) under ASan + UBSan + assertions: all byte strings of length <= 2 (quick) / <= 3 (thorough); for 23-29 seed streams x 8 length headers every proper prefix, every other value of the leading / edge stream bytes, trailing bytes, raw / dictionary / stored / concatenated streams; for 2 base payloads per decoder every truncation, single-byte replacement, every count / length field x 16 boundary values x 8 trailing sizes and all pairs of 8-byte counts; every inflate() call index x 9 forced answers (pairs for short streams). Oracle: returns or throws std::exception, no sanitizer report, inflate-call horizon, 30 s watchdog.",
+    "The property's 'coverage-guided random mutation' clause is sampling and is not used. Allocation failure is modelled as std::bad_alloc (256 MiB cap under ASan).",
+    "DESIGN.md section 5, C05")
+chk("C06", MC, S,
+    "BFS over the complete single-field setter alphabet (25 fields x 3-6 values each, set_hot_cue_at / set_loop_at at every index 0..7) on two tracks from two seeds; depth 1 on all 18 schemas and depth 2 (all ordered pairs) on 1.18.0-os and 2.21.2 in the quick tier, depth 2 on all 18 in the thorough tier. After every transition every getter and snapshot() of both tracks is read: getter value per normalisation table, getter == snapshot field, list getters == slot getters, nothing outside the set field changes on either track, a throwing setter changes nothing.",
+    "Trusts the normalisation table (src/model/trackfields.cpp). Waveform read-back is not predicted. Interference needing three setters is not covered.",
+    "DESIGN.md section 5, C06")
+chk("C07", MC, S,
+    "BFS over create_root_crate, create_sub_crate(p), set_name, set_parent(c, every live crate incl. itself and descendants, and none), remove_crate with names {a, b, '', 'x;y'}, <= 4 live crates, two seeds, depth 3 on all 18 schemas + depth 4 on five (quick), depth 5 on all (thorough). In every state the reference forest is compared with crates(), parent(), name(), children(), descendants(), root_crates(), crate_by_id, crates_by_name, root_crate_by_name, sub_crate_by_name and is_valid()/id() of live and removed handles; invalid names and cycles must be rejected without effect.",
+    "Duplicate sibling names and the fate of a removed crate's subtree are left open by the statement (all-or-nothing / consistency of whatever survives is checked). States that violate the property are not expanded.",
+    "DESIGN.md section 5, C07")
+chk("C08", MC, S,
+    "BFS over create_track, remove_track, create_root / sub crate, remove_crate, add_track (both overloads), crate.remove_track, clear_tracks with <= 3 tracks and <= 3 crates from three seeds (two with offset id spaces), depth 3 quick / 5 thorough, all 18 schemas. In every state crate.tracks() equals the model's member multiset with valid handles only, containing_crates() is the converse on 1.x, database::tracks() equals the live set.",
+    "containing_crates() throws 'not yet implemented' on 2.x, which the statement's 'where supported' allows. More than 3 tracks / crates are not covered.",
+    "DESIGN.md section 5, C08")
+chk("C09", MC, S,
+    "Schema 2.x (7 versions). Crate mode: create_root[_after], create_sub[_after], set_parent, set_name, remove_crate and playlist_table::update to every (parent, position) over <= 4 live crates; entity mode: add_track / remove_track / clear_tracks and playlist_entity_table::add_back with own and foreign uuid on 2 crates x 3 tracks; depth 4 quick / 6 thorough (entity mode one less). After every transition every listing equals the model's ordered list exactly (open positions adopted after checking the others kept their order), tracks() / get_for_list() are in insertion order, and the raw nextListId / nextEntityId chains are single chains.",
+    "Lists longer than 4-5 items are not covered.",
+    "DESIGN.md section 5, C09")
+chk("C10", MC, S + " + on-disk replay of every distinct state",
+    "Every distinct state of the composite exploration (depth 2 quick / 3 thorough, 18 schemas) is replayed on an on-disk library, observed through the whole public API, closed, reloaded and observed again: observations identical, loaded schema = creating schema, disk = memory observation, database_exists, create_or_load_database loads (also when the other generation is requested) and creates only in an empty directory.",
+    "tmpfs scratch directories; crash points are not in this property's quantifier.",
+    "DESIGN.md section 5, C10")
+chk("C11", MC, S + " + independent raw reader",
+    "Every distinct state of the composite exploration (plus path and UTF-8 rename operations; depth 2 quick / 4 thorough) is inspected by raw SQL and refcodec: integrity_check, foreign_key_check, verify(), every blob decodes, 1.x path / parent list / hierarchy describe one forest, no rows for removed entities, 2.x chains and references, derived filename / file type / origin columns.",
+    "The reader uses the library's own connection for in-memory libraries; disk = memory equivalence is C10's.",
+    "DESIGN.md section 5, C11")
+chk("C12", MC, "exhaustive enumeration of the finite configuration space vs independent fingerprint",
+    "All 18 versions x {on-disk, temporary} against all 57 reference dumps: independent structural fingerprint (table_xinfo, foreign_key_list, index_list/xinfo; normalised view / trigger / index text) must match at least one dump of the version completely and every object on which all dumps of the version agree; version triples in every Information table, verify(), version_name(), reload version.",
+    "1.6.0 has no dump. Default rows are content, not schema.",
+    "DESIGN.md section 5, C12")
+chk("C13", MC, I + " (decision table)",
+    "6816 loads: every version triple of {0..4,-1,2^31,2^32+1,NULL} x {0..23,-1,2^31,2^32+18,NULL} x {0..4,-1,2^31,2^32+1,NULL} written by raw SQL into three real on-disk libraries (legacy OS columns, legacy desktop columns, Database2) and compared with an independent decision table; plus all layout presence combinations and missing / empty Information tables.",
+    "Triples outside the box behave like its border by the switch structure (argument, not enumeration).",
+    "DESIGN.md section 5, C13")
+chk("C14", "fault_enumeration", "exhaustive enumeration of SQL statement fault positions (F1 error return, F2 interrupt) over explored prior states",
+    "In every distinct prior state of the composite exploration (depth 0 on all 18 schemas + depth 1 on four in quick; depth 1 / 2 in thorough) every applicable public mutating call is run fault-free to count its W statement executions and then 2 x W more times with execution k failing (SQLITE_FULL without running; interrupt inside SQLite). Oracle: throws std::exception, no open transaction, dump equals the prior state, the repeated call reaches the fault-free successor.",
+    "One fault per call. F2 is not injectable on statements that finish before the progress handler is polled (counted).",
+    "DESIGN.md section 5, C14")
+chk("C15", MC, S + " with sanitizers as oracle",
+    "In every distinct state of the composite exploration (stale handles retained) ~400 calls of the full public surface with arguments in and just outside range, each as a forked sub-step under ASan + UBSan + libstdc++ assertions with a VM-step horizon and watchdog; the state is restored after each call.",
+    "Argument values between the listed classes and states deeper than the bound are not covered.",
+    "DESIGN.md section 5, C15")
+chk("C16", MC, S,
+    "In every distinct state of the composite exploration the whole observing surface (all getters, listings, lookups with existing and missing arguments, verify, 2.x table reads) is applied twice: equal answers, sqlite3_total_changes unchanged, dump unchanged; on an on-disk copy database_exists / load + observe / create_or_load + verify leave file hashes unchanged.",
+    "Verdict on database content; the count of non-read-only statements is informational.",
+    "DESIGN.md section 5, C16")
+chk("C17", MC, "exhaustive enumeration of a mechanically generated single-mutation set",
+    "For each schema version (m.db and p.db separately) every single structural mutation of the created DDL (drop / rename / add table, view, index; index uniqueness and columns; per column drop, rename, type, NOT NULL, DEFAULT, PRIMARY KEY; add column; remove table PK) is materialised by re-hydrating the file, loaded and verified: must end in database_inconsistency unless its independent fingerprint equals the original's. Accepting side: created libraries, unmutated re-hydration, all 57 reference libraries.",
+    "Quick tier: column-level mutants on four versions only. Triggers and view bodies are outside the statement.",
+    "DESIGN.md section 5, C17")
+chk("C18", MC, I + " and " + S,
+    "7 schema-2.x versions: two all-distinct base track_rows with <= k column deviations (k=1 quick, 2 thorough) through add() and update(); every per-column setter with two values after at most one other setter (all ordered pairs) on two rows; playlist_row, playlist_entity_row, information_table; every accessor and remove on a nonexistent id.",
+    "Time points at whole seconds. UNIQUE-constraint rejections are legitimate.",
+    "DESIGN.md section 5, C18")
+chk("C19", MC,
     "bounded-exhaustive input enumeration vs integer reference model",
     "Every integer sample rate in [0,2^31] (thorough; 2^27 quick) plus fractional neighbours of every multiple of 210 / power of two, every quantisation class q with ~70 boundary sample counts each (multiples of q, 1023..1025 q, powers of two up to 2^62, each +-1) and a full (q,count) box are evaluated through the public functions and compared with a reference computed in unsigned __int128: emptiness, minimal cover with < 1 entry of slack, overview = 1024 entries spanning count rounded down to q, monotonicity on every adjacent pair. Exhaustive within those bounds; no sampling.",
     "Trusts the 40-line integer reference in src/checks/c19.cpp, IEEE-754 doubles, and UBSan to surface signed overflow / invalid casts. Counts between the boundary windows for large q and rates that are not integers or near-boundary fractions are covered only through their class representative (q depends on rate only via floor(rate)/210, which step 1 checks for every integer rate).",
     "DESIGN.md section 5, C19")
+chk("C20", MC, I + " (lattice of marker positions, exact rational reference)",
+    "Every strictly increasing n-subset (n <= 5 quick, 7 thorough) of a 15-point lattice around the track x first index {-8,-4,0,3} x gap vectors over {1,2,4,7} x 5 sample counts, plus empty / single-marker grids: normalised first index -4, last marker within one beat past the end, first / last segment tempo kept (exact __int128 reference), interior markers bit-identical, strictly increasing, idempotent; grids that cannot be normalised throw invalid_argument.",
+    "Offsets restricted to the lattice (multiples of 0.5). More than 7 markers are covered by the argument that behaviour depends only on the first / last two retained markers.",
+    "DESIGN.md section 5, C20")
